@@ -837,4 +837,71 @@ theorem run_acyclic (ops : List Op) : ∀ h, Acyclic h → Acyclic (run h ops) :
   | nil => intro h ha; exact ha
   | cons op ops ih => intro h ha; exact ih _ (step_acyclic h op ha)
 
+/-! ### Concurrent requests: interleavings of atomic check+install steps
+
+A request is a list of micro steps: suspensions (awaits that touch no expression: sequence cancellation, attribute
+reads, `main.update()`, …) and *atomic* hub operations (for an assignment: `check_loops` **and** the store to
+`_expression`, executed without yielding to the event loop in between). The event loop may interleave the micro steps
+of concurrent requests in any way. -/
+
+inductive Micro
+  | suspend
+  | atomic (op : Op)
+
+def microStep (h : Hub) : Micro → Hub
+  | .suspend => h
+  | .atomic op => (step h op).1
+
+/-- The hub after a schedule of micro steps. -/
+def runMicro (h : Hub) (sched : List Micro) : Hub := sched.foldl microStep h
+
+/-- The hub operations of a schedule, in the order in which they are executed. -/
+def atomics : List Micro → List Op
+  | [] => []
+  | .suspend :: rest => atomics rest
+  | .atomic op :: rest => op :: atomics rest
+
+/-- Serialisability: a schedule has the effect of its atomic operations run one after the other. -/
+theorem runMicro_eq_run (sched : List Micro) : ∀ h, runMicro h sched = run h (atomics sched) := by
+  induction sched with
+  | nil => intro h; rfl
+  | cons m rest ih =>
+    intro h
+    cases m with
+    | suspend => exact ih h
+    | atomic op => exact ih _
+
+theorem runMicro_acyclic (sched : List Micro) (h : Hub) (ha : Acyclic h) : Acyclic (runMicro h sched) := by
+  rw [runMicro_eq_run]; exact run_acyclic _ h ha
+
+/-- `Shuffle reqs sched`: `sched` is an interleaving of the requests `reqs` (each request keeps its own order). -/
+inductive Shuffle : List (List Micro) → List Micro → Prop
+  | nil : Shuffle [] []
+  | drop {rs : List (List Micro)} {s : List Micro} : Shuffle rs s → Shuffle ([] :: rs) s
+  | take {pre post : List (List Micro)} {r s : List Micro} (x : Micro) :
+      Shuffle (pre ++ r :: post) s → Shuffle (pre ++ (x :: r) :: post) (x :: s)
+
+theorem atomics_cons_perm (x : Micro) (r : List Micro) (A B : List Op) :
+    (atomics [x] ++ (A ++ atomics r ++ B)).Perm (A ++ atomics (x :: r) ++ B) := by
+  cases x with
+  | suspend => exact List.Perm.refl _
+  | atomic op =>
+    show (op :: (A ++ atomics r ++ B)).Perm (A ++ (op :: atomics r) ++ B)
+    simp only [List.append_assoc, List.cons_append]
+    exact List.perm_middle.symm
+
+/-- The operations executed by an interleaving are a permutation of the operations of the requests. -/
+theorem shuffle_atomics_perm {reqs : List (List Micro)} {sched : List Micro} (hs : Shuffle reqs sched) :
+    (atomics sched).Perm (reqs.flatMap atomics) := by
+  induction hs with
+  | nil => exact List.Perm.refl _
+  | drop _ ih => simpa [List.flatMap_cons, atomics] using ih
+  | @take pre post r s x _ ih =>
+    have h1 : atomics (x :: s) = atomics [x] ++ atomics s := by cases x <;> rfl
+    rw [h1]
+    simp only [List.flatMap_append, List.flatMap_cons] at ih ⊢
+    refine List.Perm.trans (List.Perm.append_left _ ih) ?_
+    have := atomics_cons_perm x r (List.flatMap atomics pre) (List.flatMap atomics post)
+    simpa [List.append_assoc] using this
+
 end QtVerif.Deps
